@@ -494,30 +494,7 @@ def lit_text(e):
     return None
 
 
-ctxvars = {"context"}   # variables initialised from tera::Context::new() (collected while walking); the conventional name is the seed
-
-
-def collect_renders(fn, stmts, inherited, out):
-    """(fn, template name, keys inserted into the context in scope) for each render call; block scoped"""
-    keys = dict(inherited)
-    for st in stmts:
-        if st.get("k") == "let" and st.get("init") is not None and re.search(r"(^|::)Context::(new|default)\(", expr_text(st["init"])):
-            from srclib import pat_bindings as _pb
-            ctxvars.update(_pb(st["pat"]))
-        for e in stmt_exprs(st):
-            for x in walk_shallow(e):
-                if x.get("k") == "mcall" and x["method"] == "insert" and expr_text(x["recv"]) in ctxvars and x["args"] and lit_str(x["args"][0]):
-                    keys[lit_str(x["args"][0])] = expr_text(x["args"][1]) if len(x["args"]) > 1 else ""
-                if x.get("k") == "mcall" and x["method"] == "render" and x["args"] and lit_str(x["args"][0]):
-                    out.append((fn, lit_str(x["args"][0]), dict(keys)))
-            # nested blocks get their own scope (context is shadowed there)
-            for x in walk_shallow(e):
-                if x.get("k") == "block" and x is not e:
-                    collect_renders(fn, x["stmts"], {}, out)
-            if e.get("k") == "block":
-                collect_renders(fn, e["stmts"], {}, out)
-        if st.get("k") == "let" and st.get("init") is not None and expr_text(st["init"]).startswith("Context::new"):
-            keys = {}
+from tpltypes import collect_renders     # noqa: E402  (one implementation of "which keys are in the context at this render call")
 
 
 def walk_shallow(e):
